@@ -1761,3 +1761,13 @@ M("C02-benign-blind-extractor-condition-order", "C02", "src/interrogate/interfac
   "        if (const_ok && !report_errors) {\n          // This function does the same thing in this case and is slightly",
   "        if (!report_errors && const_ok) {\n          // This function does the same thing in this case and is slightly",
   benign=True)
+
+# ---------------------------------------------------------------- R18.8 (seed S7-C18)
+M("C18-exponent-loses-tens-digit", "C18", "src/dtoolbase/pdtoa.cxx",
+  "    K %= 100;\n    const char* d = cDigitsLut + K * 2;\n    *buffer++ = d[0];\n    *buffer++ = d[1];\n  }\n  else if (K >= 10) {",
+  "    K %= 100;\n  }\n  if (K >= 10) {",
+  expect="R18.8|WriteExponent|decimal-text")
+M("C18-benign-exponent-digits-by-division", "C18", "src/dtoolbase/pdtoa.cxx",
+  "    K %= 100;\n    const char* d = cDigitsLut + K * 2;\n    *buffer++ = d[0];\n    *buffer++ = d[1];\n  }\n  else if (K >= 10) {",
+  "    K %= 100;\n    *buffer++ = '0' + static_cast<char>(K / 10);\n    *buffer++ = '0' + static_cast<char>(K % 10);\n  }\n  else if (K >= 10) {",
+  benign=True)
